@@ -26,32 +26,33 @@ Definition topo2 (n0 n1 : string) (m0 m1 : N) (i0 i1 : infos_t) (ti : infos_t) :
       3 (Some "0xf") (Some "0x3") ti [] [] [].
 
 (* ------------------------------------------------------------------ *)
-(* refutation witnesses                                                 *)
+(* witnesses: defects that remain, and regression witnesses for the fixed ones *)
 
-(* [X:a->b; X:b->c; bad] on X=a: returns -3 and leaves X=b *)
+(* [X:a->b; X:b->c; bad] on X=a: before fix 751402d the cancel loop walked the
+   applied entries first to last, returned -3 and left X=b; now X=a again *)
 Definition rb_T := topo1 (Some "m") [("X", "a")].
 Definition rb_d := [EAttr 0 0 (DInfo "X" "a" "b"); EAttr 0 0 (DInfo "X" "b" "c"); EAttr 0 0 (DInfo "Y" "a" "b")].
-Lemma rollback_witness :
-  diff_apply 0 rb_d rb_T = ARet (-3) (topo1 (Some "m") [("X", "b")]) /\ keys_unique rb_T && vals_u64 rb_T && info_names_nodup rb_T = true.
+Lemma rollback_regression :
+  diff_apply_forward_cancel 0 rb_d rb_T = ARet (-3) (topo1 (Some "m") [("X", "b")]) /\ diff_apply 0 rb_d rb_T = ARet (-3) rb_T.
 Proof. vm_compute. split; reflexivity. Qed.
-Lemma rollback_fixed_witness : diff_apply_fixed 0 rb_d rb_T = ARet (-3) rb_T.
-Proof. vm_compute. reflexivity. Qed.
 
-(* the same list without the failing entry cannot be reverted by APPLY_REVERSE *)
+(* APPLY_REVERSE still walks the list first to last: the same list without the
+   failing entry applies and cannot be reverted *)
 Lemma reverse_witness :
+  keys_unique rb_T && vals_u64 rb_T && info_names_nodup rb_T = true /\
   diff_apply 0 (firstn 2 rb_d) rb_T = ARet 0 (topo1 (Some "m") [("X", "c")]) /\
   diff_apply HWLOC_TOPOLOGY_DIFF_APPLY_REVERSE (firstn 2 rb_d) (topo1 (Some "m") [("X", "c")]) = ARet (-1) (topo1 (Some "m") [("X", "c")]).
-Proof. vm_compute. split; reflexivity. Qed.
+Proof. vm_compute. repeat split; reflexivity. Qed.
 
-(* name set on one side only *)
-Lemma name_unset_witness_crash :
-  diff_build 0 (topo1 (Some "m") []) (topo1 None []) = BRet 0 [EAttr 0 0 (DName (Some "m") None)] /\
-  diff_apply 0 [EAttr 0 0 (DName (Some "m") None)] (topo1 (Some "m") []) = ACrash.
-Proof. vm_compute. split; reflexivity. Qed.
-Lemma name_unset_witness_fail :
-  diff_build 0 (topo1 None []) (topo1 (Some "m") []) = BRet 0 [EAttr 0 0 (DName None (Some "m"))] /\
+(* name set on one side only: TOO_COMPLEX since fix 566d2c2; before, rc 0 with
+   a NULL value that apply could not handle *)
+Lemma name_unset_regression :
+  diff_build 0 (topo1 (Some "m") []) (topo1 None []) = BRet 1 [ETooComplex 0 0] /\
+  diff_build 0 (topo1 None []) (topo1 (Some "m") []) = BRet 1 [ETooComplex 0 0] /\
+  diff_build_gen false true 0 (topo1 (Some "m") []) (topo1 None []) = BRet 0 [EAttr 0 0 (DName (Some "m") None)] /\
+  diff_apply 0 [EAttr 0 0 (DName (Some "m") None)] (topo1 (Some "m") []) = ACrash /\
   diff_apply 0 [EAttr 0 0 (DName None (Some "m"))] (topo1 None []) = ARet (-1) (topo1 None []).
-Proof. vm_compute. split; reflexivity. Qed.
+Proof. vm_compute. repeat split; reflexivity. Qed.
 
 (* two infos with one name: no (name,value) pair is duplicated on either side,
    still the second entry patches the first position *)
@@ -68,15 +69,18 @@ Definition het_T := mkT (t_root rb_T) 1 None None [] [(true, "d")] [] [].
 Lemma hetero_witness : diff_build 0 het_T het_T = BRet 1 [ETooComplex 0 0].
 Proof. vm_compute. reflexivity. Qed.
 
-(* memory attribute values: the initiators of the second topology beyond the
-   count of the first are never compared; fewer of them are read past the end *)
+(* memory attribute values: since fix ac5e4b1 a different number of initiators
+   is TOO_COMPLEX; before, extra ones on the second side were never compared
+   and missing ones were read past the end *)
 Definition ma (inits : list string) : list mattr :=
   [mkMA "Capacity" false []; mkMA "Locality" false []; mkMA "Bandwidth" true [mkMT "numa0" "0" inits]].
 Definition ma_T (inits : list string) := mkT (t_root rb_T) 1 None None [] [] (ma inits) [].
-Lemma memattr_witness :
-  diff_build 0 (ma_T ["i0=100"]) (ma_T ["i0=100"; "i1=200"]) = BRet 0 [] /\
-  diff_build 0 (ma_T ["i0=100"; "i1=200"]) (ma_T ["i0=100"]) = BOverread.
-Proof. vm_compute. split; reflexivity. Qed.
+Lemma memattr_regression :
+  diff_build 0 (ma_T ["i0=100"]) (ma_T ["i0=100"; "i1=200"]) = BRet 1 [ETooComplex 0 0] /\
+  diff_build 0 (ma_T ["i0=100"; "i1=200"]) (ma_T ["i0=100"]) = BRet 1 [ETooComplex 0 0] /\
+  diff_build_gen true false 0 (ma_T ["i0=100"]) (ma_T ["i0=100"; "i1=200"]) = BRet 0 [] /\
+  diff_build_gen true false 0 (ma_T ["i0=100"; "i1=200"]) (ma_T ["i0=100"]) = BOverread.
+Proof. vm_compute. repeat split; reflexivity. Qed.
 
 Local Close Scope string_scope.
 
@@ -582,11 +586,11 @@ Qed.
 Lemma firstn_app_exact {A} (p : list A) r : firstn (List.length p) (p ++ r) = p.
 Proof. induction p as [|x p IH]; cbn; [destruct r; reflexivity|rewrite IH; reflexivity]. Qed.
 
-Lemma rollback_fixed flags d T rc T' :
+Lemma rollback flags d T rc T' :
   Hkeys T -> Hnames T -> Hu64 T -> forallb entry_u64 d = true ->
-  diff_apply_fixed flags d T = ARet rc T' -> (rc < 0)%Z -> T' = T.
+  diff_apply flags d T = ARet rc T' -> (rc < 0)%Z -> T' = T.
 Proof.
-  intros HK HN HU Hd H Hrc. unfold diff_apply_fixed in H.
+  intros HK HN HU Hd H Hrc. unfold diff_apply in H.
   destruct (negb (N.ldiff flags HWLOC_TOPOLOGY_DIFF_APPLY_REVERSE =? 0)%N); [injection H as _ <-; reflexivity|].
   set (rev := negb (N.land flags HWLOC_TOPOLOGY_DIFF_APPLY_REVERSE =? 0)%N) in *.
   destruct (apply_loop rev d 0 T) as [T1|n T1|] eqn:El; try discriminate.
@@ -724,7 +728,7 @@ Proof.
 Qed.
 
 Definition stages (a1 a2 : oattr) (c1 c2 m1 m2 i1 i2 x1 x2 : list obj) : stage :=
-  seq_stage (name_stage false a1 a2)
+  seq_stage (name_stage true a1 a2)
  (seq_stage (type_attr_diff a1 a2)
  (seq_stage (infos_diff (a_depth a1) (a_lidx a1) (a_infos a1) (a_infos a2))
  (seq_stage (walk diff_trees c1 c2)
@@ -739,19 +743,40 @@ Lemma diff_trees_unfold a1 c1 m1 i1 x1 a2 c2 m2 i2 x2 :
        if snd r then fst r ++ [ETooComplex (a_depth a1) (a_lidx a1)] else fst r.
 Proof. reflexivity. Qed.
 
+Definition name_set (a : oattr) : option string := option_map (fun _ => EmptyString) (a_name a).
+Lemma name_stage_snd a1 a2 : snd (name_stage true a1 a2) = false <-> name_set a1 = name_set a2.
+Proof.
+  unfold name_stage, name_set. cbn [andb].
+  destruct (ostr_eqb (option_map (fun _ => EmptyString) (a_name a1)) (option_map (fun _ => EmptyString) (a_name a2))) eqn:E; cbn [negb snd].
+  - apply ostr_eqb_eq in E. tauto.
+  - split; [discriminate|]. intros E'. apply ostr_eqb_eq in E'. congruence.
+Qed.
+Lemma name_stage_notc fx a1 a2 : has_tc (fst (name_stage fx a1 a2)) = false.
+Proof. unfold name_stage. destruct (_ && _); [reflexivity|apply name_diff_notc]. Qed.
+Lemma name_stage_nil a1 a2 : name_stage true a1 a2 = ([], false) <-> a_name a1 = a_name a2.
+Proof.
+  split.
+  - intros E. assert (Hs : snd (name_stage true a1 a2) = false) by (rewrite E; reflexivity).
+    unfold name_stage in *. cbn [andb] in *. destruct (negb _); [discriminate|]. injection E as E. apply name_diff_nil. exact E.
+  - intros E. unfold name_stage. cbn [andb]. rewrite E. 
+    assert (X : ostr_eqb (option_map (fun _ => EmptyString) (a_name a2)) (option_map (fun _ => EmptyString) (a_name a2)) = true) by (apply ostr_eqb_eq; reflexivity).
+    rewrite X. cbn [negb]. f_equal. apply name_diff_nil. exact E.
+Qed.
+
 Lemma skel_attr_eq a1 a2 :
   skel_attr a1 = skel_attr a2 <->
-  fixed_part a1 = fixed_part a2 /\ snd (type_attr_diff a1 a2) = false /\ map fst (a_infos a1) = map fst (a_infos a2).
+  fixed_part a1 = fixed_part a2 /\ snd (name_stage true a1 a2) = false /\
+  snd (type_attr_diff a1 a2) = false /\ map fst (a_infos a1) = map fst (a_infos a2).
 Proof.
-  unfold skel_attr, skel_attr_gen, fixed_part, type_attr_diff. split.
-  - intros E. injection E as E1 E2 E3 E4 E5 E6 E7. rewrite E1, E2, E3, E4, E5. split; [reflexivity|]. split.
-    + destruct (is_numa (a_type a2)); [reflexivity|]. rewrite E2 in E6.
-      destruct (is_memcmp_type (a_type a2)); [|reflexivity]. cbn [snd]. rewrite E6, String.eqb_refl. reflexivity.
-    + apply (f_equal (map fst)) in E7. rewrite !map_map in E7. exact E7.
-  - intros (E & Ht & Hi). injection E as E1 E2 E3 E4 E5. rewrite E1, E2, E3, E4, E5. f_equal.
-    + rewrite E2 in Ht. destruct (is_numa (a_type a2)) eqn:En.
+  rewrite name_stage_snd. unfold skel_attr, skel_attr_gen, fixed_part, type_attr_diff, name_set. split.
+  - intros E. injection E as E1 E2 E3 E4 E5 E6 E7 E8. rewrite E1, E2, E3, E4, E5. split; [reflexivity|]. split; [exact E6|]. split.
+    + destruct (is_numa (a_type a2)); [reflexivity|]. rewrite E2 in E7.
+      destruct (is_memcmp_type (a_type a2)); [|reflexivity]. cbn [snd]. rewrite E7, String.eqb_refl. reflexivity.
+    + apply (f_equal (map fst)) in E8. rewrite !map_map in E8. exact E8.
+  - intros (E & En & Ht & Hi). injection E as E1 E2 E3 E4 E5. rewrite E1, E2, E3, E4, E5, En. f_equal.
+    + rewrite E2 in Ht. destruct (is_numa (a_type a2)) eqn:Enu.
       * assert (is_memcmp_type (a_type a2) = false) as ->; [|reflexivity].
-        apply is_numa_true in En. rewrite En. reflexivity.
+        apply is_numa_true in Enu. rewrite Enu. reflexivity.
       * destruct (is_memcmp_type (a_type a2)); [|reflexivity]. cbn [snd] in Ht. apply negb_false_iff, String.eqb_eq in Ht. exact Ht.
     + rewrite <- !(map_map fst (fun n => (n, EmptyString))). rewrite Hi. reflexivity.
 Qed.
@@ -778,30 +803,30 @@ Proof.
   - apply pre_differs_false in Epre. cbv zeta.
     set (r := stages a1 a2 c1 c2 m1 m2 i1 i2 x1 x2).
     assert (R : (snd r = false /\ has_tc (fst r) = false) <->
-                (snd (type_attr_diff a1 a2) = false /\ map fst (a_infos a1) = map fst (a_infos a2)) /\
+                (snd (name_stage true a1 a2) = false /\ snd (type_attr_diff a1 a2) = false /\ map fst (a_infos a1) = map fst (a_infos a2)) /\
                 map (tmap skel_attr) c1 = map (tmap skel_attr) c2 /\ map (tmap skel_attr) m1 = map (tmap skel_attr) m2 /\
                 map (tmap skel_attr) i1 = map (tmap skel_attr) i2 /\ map (tmap skel_attr) x1 = map (tmap skel_attr) x2).
     { rewrite <- (K c1 c2 Hc), <- (K m1 m2 Hm), <- (K i1 i2 Hi), <- (K x1 x2 Hx).
       rewrite <- (infos_diff_tc (a_depth a1) (a_lidx a1)).
-      unfold r, stages, name_stage. cbn [andb].
+      unfold r, stages.
       split.
       - intros [Hs Ht]. repeat (apply seq_stage_snd in Hs; let H := fresh "S" in destruct Hs as [H Hs]).
         repeat (rewrite seq_stage_fst in Ht by assumption; rewrite has_tc_app in Ht; apply orb_false_iff in Ht;
                 let H := fresh "T" in destruct Ht as [H Ht]).
         tauto.
-      - intros ((A1 & A2) & (B1 & B2) & (C1 & C2) & (D1 & D2) & (E1 & E2)). split.
-        + repeat (apply seq_stage_snd; split; try assumption). reflexivity.
-        + repeat (rewrite seq_stage_fst by (try assumption; reflexivity); rewrite has_tc_app; apply orb_false_iff; split;
-                  [first [assumption|apply name_diff_notc|apply type_attr_notc|apply infos_diff_notc]|]).
+      - intros ((A0 & A1 & A2) & (B1 & B2) & (C1 & C2) & (D1 & D2) & (E1 & E2)). split.
+        + repeat (apply seq_stage_snd; split; try assumption).
+        + repeat (rewrite seq_stage_fst by assumption; rewrite has_tc_app; apply orb_false_iff; split;
+                  [first [assumption|apply name_stage_notc|apply type_attr_notc|apply infos_diff_notc]|]).
           assumption. }
     destruct (snd r) eqn:Es.
     + rewrite has_tc_app. cbn [has_tc existsb is_tc]. rewrite orb_true_r. split; [discriminate|].
-      intros E. apply Obj_eq_inv in E. destruct E as (E0 & E1 & E2 & E3 & E4). apply skel_attr_eq in E0. destruct E0 as (_ & F1 & F2).
+      intros E. apply Obj_eq_inv in E. destruct E as (E0 & E1 & E2 & E3 & E4). apply skel_attr_eq in E0. destruct E0 as (_ & F0 & F1 & F2).
       assert (X : true = false /\ has_tc (fst r) = false) by (apply R; tauto). destruct X as [X _]. discriminate X.
     + split.
       * intros Ht. assert (X : false = false /\ has_tc (fst r) = false) by tauto. apply R in X.
-        destruct X as ((F1 & F2) & G1 & G2 & G3 & G4). f_equal; try assumption. apply skel_attr_eq. tauto.
-      * intros E. apply Obj_eq_inv in E. destruct E as (E0 & E1 & E2 & E3 & E4). apply skel_attr_eq in E0. destruct E0 as (_ & F1 & F2).
+        destruct X as ((F0 & F1 & F2) & G1 & G2 & G3 & G4). f_equal; try assumption. apply skel_attr_eq. tauto.
+      * intros E. apply Obj_eq_inv in E. destruct E as (E0 & E1 & E2 & E3 & E4). apply skel_attr_eq in E0. destruct E0 as (_ & F0 & F1 & F2).
         assert (X : false = false /\ has_tc (fst r) = false) by (apply R; tauto). tauto.
 Qed.
 
@@ -870,11 +895,8 @@ Proof.
                 map (tmap erase_attr) c1 = map (tmap erase_attr) c2 /\ map (tmap erase_attr) m1 = map (tmap erase_attr) m2 /\
                 map (tmap erase_attr) i1 = map (tmap erase_attr) i2 /\ map (tmap erase_attr) x1 = map (tmap erase_attr) x2).
     { rewrite <- (K c1 c2 Hc), <- (K m1 m2 Hm), <- (K i1 i2 Hi), <- (K x1 x2 Hx).
-      rewrite <- (infos_diff_nil (a_depth a1) (a_lidx a1)), <- name_diff_nil.
-      unfold r, stages, name_stage. cbn [andb]. rewrite !seq_stage_nil.
-      split.
-      - intros (A & B & C & D & E & F & G). injection A as A. tauto.
-      - intros ((A & B & C) & D & E & F & G). rewrite A. tauto. }
+      rewrite <- (infos_diff_nil (a_depth a1) (a_lidx a1)), <- name_stage_nil.
+      unfold r, stages. rewrite !seq_stage_nil. tauto. }
     destruct r as [e [|]] eqn:Er; cbn [fst snd].
     + split; [intros E; apply app_eq_nil in E; destruct E as [_ E]; discriminate E|].
       intros E. apply Obj_eq_inv in E. destruct E as (E0 & E1 & E2 & E3 & E4). apply erase_attr_eq in E0.
@@ -911,7 +933,7 @@ Qed.
 Definition top_same (A B : topo) : Prop :=
   (t_allowed_cpuset A = t_allowed_cpuset B /\ t_allowed_nodeset A = t_allowed_nodeset B) /\
   dists_differ (t_dists A) (t_dists B) = false /\
-  memattrs_cmp false (t_memattrs A) (t_memattrs B) = Some false /\
+  memattrs_cmp true (t_memattrs A) (t_memattrs B) = Some false /\
   t_cpukinds A = t_cpukinds B.
 
 Lemma allowed_same A B :
@@ -924,7 +946,7 @@ Theorem build_zero_iff A B :
   erase (t_root A) = erase (t_root B) /\ t_infos A = t_infos B /\ top_same A B.
 Proof.
   unfold diff_build, diff_build_gen, top_same. cbn [N.eqb negb].
-  change (diff_trees_gen false) with diff_trees.
+  change (diff_trees_gen true) with diff_trees.
   rewrite <- diff_trees_nil_iff, <- (infos_diff_nil (t_nbl A) 0), <- allowed_same, <- (strs_eqb_eq (t_cpukinds A)).
   set (d := diff_trees (t_root A) (t_root B)).
   destruct (has_tc d) eqn:Etc.
@@ -935,7 +957,7 @@ Proof.
   { split; [discriminate|]. intros (_ & E & _). discriminate E. }
   destruct (dists_differ (t_dists A) (t_dists B)).
   { split; [discriminate|]. intros (_ & _ & _ & E & _). discriminate E. }
-  destruct (memattrs_cmp false (t_memattrs A) (t_memattrs B)) as [[|]|].
+  destruct (memattrs_cmp true (t_memattrs A) (t_memattrs B)) as [[|]|].
   - split; [discriminate|]. intros (_ & _ & _ & _ & E & _). discriminate E.
   - destruct (strs_eqb (t_cpukinds A) (t_cpukinds B)); cbn [negb].
     + split.
@@ -948,7 +970,7 @@ Qed.
 (* rc is 0 or 1, and 1 exactly when the list holds a TOO_COMPLEX entry *)
 Theorem build_rc A B rc d : diff_build 0 A B = BRet rc d -> (rc = 1%Z /\ has_tc d = true) \/ (rc = 0%Z /\ has_tc d = false).
 Proof.
-  unfold diff_build, diff_build_gen. cbn [N.eqb negb]. change (diff_trees_gen false) with diff_trees.
+  unfold diff_build, diff_build_gen. cbn [N.eqb negb]. change (diff_trees_gen true) with diff_trees.
   set (d0 := diff_trees (t_root A) (t_root B)).
   assert (Htcend : forall l, has_tc (l ++ [ETooComplex (a_depth (oa (t_root A))) (a_lidx (oa (t_root A)))]) = true).
   { intros l. rewrite has_tc_app. cbn. apply orb_true_r. }
@@ -969,12 +991,12 @@ Definition expressible (A B : topo) : Prop :=
   skel (t_root A) = skel (t_root B) /\ map fst (t_infos A) = map fst (t_infos B) /\ top_same A B.
 
 Theorem build_toocomplex_iff A B :
-  memattrs_cmp false (t_memattrs A) (t_memattrs B) <> None ->
+  memattrs_cmp true (t_memattrs A) (t_memattrs B) <> None ->
   ((exists d, diff_build 0 A B = BRet 1 d) <-> ~ expressible A B) /\
   ((exists d, diff_build 0 A B = BRet 0 d) <-> expressible A B).
 Proof.
   intros Hm. unfold diff_build, diff_build_gen, expressible, top_same. cbn [N.eqb negb].
-  change (diff_trees_gen false) with diff_trees.
+  change (diff_trees_gen true) with diff_trees.
   rewrite <- diff_trees_tc_iff, <- (infos_diff_tc (t_nbl A) 0), <- allowed_same, <- (strs_eqb_eq (t_cpukinds A)).
   set (d := diff_trees (t_root A) (t_root B)).
   destruct (has_tc d) eqn:Etc.
@@ -997,7 +1019,7 @@ Proof.
     - intros _ (_ & _ & _ & E & _). discriminate E.
     - intros [d' E]. discriminate E.
     - intros (_ & _ & _ & E & _). discriminate E. }
-  destruct (memattrs_cmp false (t_memattrs A) (t_memattrs B)) as [[|]|]; [| |contradiction].
+  destruct (memattrs_cmp true (t_memattrs A) (t_memattrs B)) as [[|]|]; [| |contradiction].
   { split; split; try (intros _; eauto; fail).
     - intros _ (_ & _ & _ & _ & E & _). discriminate E.
     - intros [d' E]. discriminate E.
@@ -1013,3 +1035,47 @@ Proof.
     + intros [d' E]. discriminate E.
     + intros (_ & _ & _ & _ & _ & E). discriminate E.
 Qed.
+
+(* since fix ac5e4b1 the initiator loop stays in bounds on all inputs *)
+Lemma inits_walk_total l1 : forall l2, List.length l1 = List.length l2 -> inits_walk l1 l2 <> None.
+Proof.
+  induction l1 as [|x r IH]; intros [|y r2] E; cbn [inits_walk]; try discriminate.
+  destruct (negb (String.eqb x y)); [discriminate|]. apply IH. cbn in E. lia.
+Qed.
+Lemma inits_differ_total l1 l2 : inits_differ true l1 l2 <> None.
+Proof.
+  unfold inits_differ. cbn [andb]. destruct (Nat.eqb (List.length l1) (List.length l2)) eqn:E; cbn [negb]; [|discriminate].
+  apply inits_walk_total. apply Nat.eqb_eq. exact E.
+Qed.
+Lemma targets_differ_total need l1 : forall l2, targets_differ true need l1 l2 <> None.
+Proof.
+  induction l1 as [|t1 r IH]; intros [|t2 r2]; cbn [targets_differ]; try discriminate.
+  destruct (negb (String.eqb (mt_id t1) (mt_id t2))); [discriminate|]. destruct need.
+  - pose proof (inits_differ_total (mt_inits t1) (mt_inits t2)) as H.
+    destruct (inits_differ true (mt_inits t1) (mt_inits t2)) as [[|]|]; [discriminate|apply IH|contradiction].
+  - destruct (negb (String.eqb (mt_noinit t1) (mt_noinit t2))); [discriminate|apply IH].
+Qed.
+Lemma memattrs_differ_total l1 : forall i l2, memattrs_differ true i l1 l2 <> None.
+Proof.
+  induction l1 as [|m1 r IH]; intros i [|m2 r2]; cbn [memattrs_differ]; try discriminate.
+  destruct (_ || _); [discriminate|]. destruct (_ || _); [apply IH|].
+  pose proof (targets_differ_total (ma_need_init m1) (ma_targets m1) (ma_targets m2)) as H.
+  destruct (targets_differ true (ma_need_init m1) (ma_targets m1) (ma_targets m2)) as [[|]|]; [discriminate|apply IH|contradiction].
+Qed.
+Lemma memattrs_cmp_total l1 l2 : memattrs_cmp true l1 l2 <> None.
+Proof. unfold memattrs_cmp. destruct (negb _); [discriminate|apply memattrs_differ_total]. Qed.
+
+Theorem build_never_overreads A B : diff_build 0 A B <> BOverread.
+Proof.
+  unfold diff_build, diff_build_gen. cbn [N.eqb negb].
+  destruct (has_tc _); [discriminate|]. destruct (_ || _); [discriminate|].
+  destruct (infos_diff _ _ _ _) as [ti [|]]; [discriminate|]. destruct (dists_differ _ _); [discriminate|].
+  pose proof (memattrs_cmp_total (t_memattrs A) (t_memattrs B)) as H.
+  destruct (memattrs_cmp true (t_memattrs A) (t_memattrs B)) as [[|]|]; [discriminate| |contradiction].
+  destruct (negb _); discriminate.
+Qed.
+
+Theorem build_toocomplex_iff' A B :
+  ((exists d, diff_build 0 A B = BRet 1 d) <-> ~ expressible A B) /\
+  ((exists d, diff_build 0 A B = BRet 0 d) <-> expressible A B).
+Proof. apply build_toocomplex_iff. apply memattrs_cmp_total. Qed.
